@@ -51,6 +51,12 @@
 (*                    was deferred" (the code between 73dc62f and 2372fdd; *)
 (*                    known finding zero-buffer-echo)                      *)
 (*   DeferredSticky   zero_write_deferred is never cleared                 *)
+(* and one is what the code DOES (open finding reset-drops-frame-tail,     *)
+(* conformance runs with it switched on):                                  *)
+(*   ResetDropsFrameTail  the peer resets the stream whose frame is half-  *)
+(*                    written: remove_dead_stream clears expect_write, the *)
+(*                    stream's buffer is recycled and the rest of the      *)
+(*                    frame never goes out                                 *)
 (***************************************************************************)
 EXTENDS Integers, Sequences, FiniteSets, TLC
 
@@ -203,7 +209,16 @@ Peer_Ctl == /\ CanHandle /\ nev' = nev + 1
                ELSE expect' = "zero" /\ UNCHANGED deferred
             /\ UNCHANGED <<nextf, curf, curleft, wu, rst, kern, tail, garbled>>
 
-Next == Mux_Writable \/ Peer_Read \/ Peer_Partial \/ Peer_Data \/ Peer_Bad \/ Peer_Ctl
+\* RST_STREAM from the peer for the stream whose frame sits in kawa.out.  The frames already prepared for the wire
+\* were accounted against the peer's windows and must still go out whole (the peer ignores them): nothing changes
+\* for the writer.  DEVIATION (open): handle_rst_stream_frame -> remove_dead_stream drops them, half-written or not.
+Peer_Reset == /\ CanHandle /\ curf # 0 /\ nev' = nev + 1 /\ zero' = <<>>
+              /\ IF Dev("ResetDropsFrameTail")
+                 THEN curf' = 0 /\ curleft' = 0 /\ expect' = (IF expect = "stream" THEN "none" ELSE expect)
+                 ELSE UNCHANGED <<curf, curleft, expect>>
+              /\ UNCHANGED <<nextf, deferred, wu, rst, rint, kern, tail, garbled, nc>>
+
+Next == Mux_Writable \/ Peer_Read \/ Peer_Partial \/ Peer_Data \/ Peer_Bad \/ Peer_Ctl \/ Peer_Reset
 Spec == Init /\ [][Next]_vars
 FairSpec == Spec /\ WF_vars(Mux_Writable) /\ WF_vars(Peer_Read)
 
